@@ -180,6 +180,9 @@ impl Module for M {
                 let e = t.point();
                 let line = Line::new(s, e);
                 let pts: Vec<Point> = line.points().collect();
+                if pts.len() <= 300 {
+                    iter_protocol_check(ctx, "iterator-protocol:line-points", line.points(), 300);
+                }
                 classify(ctx, s, e);
                 if s != e {
                     ctx.nontrivial(op);
